@@ -395,6 +395,11 @@ func (encryptor *QueryDataEncryptor) onReturning(ctx context.Context, returning 
 			}
 
 			tableSchema := encryptor.schemaStore.GetTableSchema(columnInfo.Table)
+			if tableSchema == nil {
+				// column of a table that is not in the encryptor config (RETURNING other_table.column): no settings for it
+				querySelectSettings = append(querySelectSettings, nil)
+				continue
+			}
 
 			if columnSetting := tableSchema.GetColumnEncryptionSettings(columnInfo.Name); columnSetting != nil {
 				querySelectSettings = append(querySelectSettings, base.NewQueryDataItem(columnSetting, columnInfo.Table, columnInfo.Name, ""))
